@@ -69,9 +69,10 @@ FACTORS = [
     ("abs(a)", ["a"]),                                   # Python builtin as the callable
     ("round(b * kk)", ["b"]),                            # builtin + a context constant
     ("np.where(a > 2, b, a)", ["a", "b"]),               # comparison
-    ("{a if kk else b}", ["a", "b"]),                    # conditional expression
+    ("{a * (2 if kk else 3) + b}", ["a", "b"]),          # conditional expression (on constants: both columns are evaluated)
     ("{sum([a * wt for wt in (1, 2)])}", ["a"]),         # comprehension (wt is a bound name, not a column)
 ]
+NOISY = {"{a.values}", "{a.sum() * b}", "{a.sum()}", "{sum([a * wt for wt in (1, 2)])}"}
 LHS = [("", []), ("y ~ ", ["y"]), ("log(y) ~ ", ["y"]), ("`y z` ~ ", ["y z"])]
 
 COLUMNS = {
@@ -139,7 +140,18 @@ def drv_required(c, ctx, col):
             if k <= j or k == i:
                 raise Skip()
             parts.append(facs[k])
-    lhs_text, lhs_needs = c.pick(ctx["lhs"])
+    lhs_i = c.choose(len(ctx["lhs"]))
+    lhs_text, lhs_needs = ctx["lhs"][lhs_i]
+    # Factors with a KNOWN, listed defect (K3a-c) or a reported one are combined with the partners `a`, `b` only (partner first),
+    # two left-hand sides, no three-factor shape: the runner keeps at most 200 violations per sub-check, known ones included, so
+    # hundreds of repeats of a known finding would crowd out a new one.
+    noisy = [q for q, p_ in enumerate(parts) if p_[0] in NOISY]
+    if noisy and len(parts) > 1:
+        if len(parts) > 2 or noisy != [1] or parts[0][0] not in ("a", "b") or lhs_i > 1:
+            col.count("scope:known-defect-factor-combined-with-a-b-only")
+            raise Skip()
+    if noisy and lhs_i > 1:
+        raise Skip()
     rhs_text = {"single": "%s", "sum": "%s + %s", "interaction": "%s:%s", "sum+interaction": "%s + %s:%s"}[shape] % tuple(p[0] for p in parts)
     text = lhs_text + rhs_text
     needs = sorted(set(lhs_needs).union(*[p[1] for p in parts]))
@@ -513,6 +525,8 @@ def drv_dot(c, ctx, col):
     L = c.subset(cols)
     if L:
         form = c.pick(ctx["lhs_forms"])
+        if form == "{first.abs()}" and len(cols) > 2:
+            raise Skip()  # known finding K3d: keep its repeats few (the runner keeps at most 200 violations per sub-check)
         text = LHS_FORMS[form](L) + " ~ ."
         if form == "plain, dotted names unquoted" and text == LHS_FORMS["plain"](L) + " ~ .":
             raise Skip()  # identical to the 'plain' form
